@@ -221,6 +221,17 @@ def evaluate(ctx, graphs, per_graph=24, all_cases=False):
             ctx.case(key=[g["products"], case], nontrivial=nontriv,
                      sample={"input": inp, "impl": ci} if ctx.evaluations % 1009 == 0 else None)
             ctx.hist("%s%s%s:%s" % ("R" if case[2] else "-", "C" if case[3] else "-", "F" if case[4] else "-", io_["out"]))
+            if top not in users_of:
+                mine = {t for t in closures(top)[0] if t[2]}
+                others = [k for k in R.decl if k != (case[0], case[1])]
+                users_of[top] = (any(top in closures((k[0], k[1], True))[0] for k in others),
+                                 any(mine & closures((k[0], k[1], True))[0] for k in others))
+            if users_of[top][0]:
+                ctx.hist("target:has_user")
+            if nontriv:
+                ctx.hist("target:has_dependency")
+            if users_of[top][1]:
+                ctx.hist("target:shares_dependency")
             if io_["out"] == "ok" and case[2]:
                 ctx.hist("recursive_removed=%d" % min(len(io_["dbb"]["decl"]) - len(io_["dba"]["decl"]), 5))
             if ci != cm:
@@ -257,7 +268,7 @@ def run(ctx):
         raise common.InfraError("degenerate distribution: %d non-trivial of %d" % (ctx.distinct_nontrivial, ctx.evaluations))
     h = ctx.histogram
     if not ctx.escalated and n >= 100:
-        for need in ("RC-:Refused", "RC-:ok", "R--:ok", "-C-:Refused"):
+        for need in ("target:has_user", "target:has_dependency", "target:shares_dependency"):
             if not h.get(need):
                 raise common.InfraError("degenerate distribution: no case with %s" % need)
 
